@@ -357,6 +357,11 @@ def apply_ops(sc: Circuit, ops: list, base_desc: dict | None = None) -> Circuit:
             cur = SF.conjugate(cur)
         elif name == "concatenate":
             cur = SF.concatenate([cur] * (op[1] if len(op) > 1 else 2))
+        elif name == "concat":
+            # concatenate([cur, *others]) (or [*others, cur] if op[2] == "last")
+            others = [build(dd) for dd in op[1]]
+            lst = others + [cur] if len(op) > 2 and op[2] == "last" else [cur] + others
+            cur = SF.concatenate(lst)
         else:
             raise ValueError(name)
     return cur
